@@ -73,6 +73,7 @@ def outcomeStr {α} (o : Outcome α) (f : α → String) : String :=
   | .ok a => f a
   | .err "parse" => "err=parse"
   | .err "notfound" => "err=notfound"
+  | .err "sleepfirst" => "err=sleepfirst"
   | .err e => "err=other:" ++ e
   | .panic p => "panic:" ++ p
 
@@ -90,7 +91,7 @@ def allDistinct {α} [BEq α] : List α → Bool
   | [] => true
   | x :: xs => !xs.contains x && allDistinct xs
 
-/-- a `sleep` item with no executed step before it (the index −1 site, property C13) -/
+/-- a `sleep` item with no executed step before it: the description is rejected (`… must follow a request`) -/
 def leadingSleep : List Item → Bool → Bool
   | [], _ => false
   | it :: rest, seen =>
@@ -106,7 +107,7 @@ def domain (reqNames : List (List Char)) (scs : List ScenarioCfg) : Option Strin
   else if scs.any (fun sc => sc.requests.any fun sh => match parseShootName sh with
       | .ok it => it.name != sleepName && !reqNames.contains it.name | _ => false) then some "unknown-request"
   else if scs.any (fun sc => leadingSleep (sc.requests.filterMap fun sh => (parseShootName sh).toOption) false)
-    then some "leading-sleep(C13)"
+    then some "leading-sleep"
   else none
 
 def specDescr (sc : ScenarioCfg) : Option String :=
@@ -125,12 +126,11 @@ def handleProv (kv : List (String × String)) (impl : String) : String × String
     let deliv := (List.range n).filterMap fun k => deliver ring k
     "ok ring=" ++ String.intercalate "|" (deliv.map fun a => esc (String.ofList a.name)) ++
       " sc=" ++ String.intercalate ";" (dedup (deliv.map descr))
-  -- index −1 for a leading sleep() is the site of property C13 (its repair changes the outcome): predict nothing there
-  let mobs := match ring with
-    | .panic "index" => "-"
-    | _ => mobs
   let verdict :=
     match domain reqNames scs with
+    | some "leading-sleep" =>
+      -- a pause with no step before it has no meaning: the description must be refused, not crash the provider
+      if impl.startsWith "err=" then "skip:leading-sleep" else s!"fail:crash:leading sleep not refused: {impl.take 60}"
     | some why => "skip:" ++ why
     | none =>
       if !impl.startsWith "ok " then s!"fail:crash:{impl.take 60}" else
@@ -398,7 +398,7 @@ def handleGun (kv : List (String × String)) (impl : String) : String × String 
   let ringO := decodeAmmo (reqDefOf reqs scs) scs
   match ringO with
   | .err e => (outcomeStr (ringO.bind fun _ => (.ok () : Outcome Unit)) fun _ => "", "skip:provider-" ++ e)
-  | .panic _ => ("-", "skip:provider-panic(C13)")
+  | .panic _ => ("-", "skip:provider-panic")
   | .ok ring =>
     let shots : List ShotIn := (List.range nShots).filterMap fun j => (deliver ring j).map fun sc => { idx := j, sc }
     let shotsOf (i : Nat) := shots.filter fun s => s.idx % nInst == i
@@ -411,8 +411,8 @@ def handleGun (kv : List (String × String)) (impl : String) : String × String 
       runInstance (world reqs rows i ((oracles.getD i "").splitOn ",")) rows (shotsOf i)
         (if useFeed then some (feedsOf i) else none) Iter.empty []
     let outs := (List.range nInst).map fun i => runI i (!closed)
-    -- a Go panic inside a shot (empty data source: `% 0`, `v[-1]`, `Intn(0)`) is the site of property C13: nothing is predicted
-    if outs.any (·.isNone) then ("-", if rows == 0 then "skip:empty-source(C13)" else "skip:model-panic") else
+    -- the model has no reachable panic inside a shot (an empty data source is an error since d4ccb1f)
+    if outs.any (·.isNone) then ("-", "skip:model-panic") else
     let outs' := outs.filterMap id
     let parts := (List.range nInst).zip outs' |>.map fun (i, (evs, _, _)) =>
       s!"i{i}=" ++ String.intercalate "|" evs.flatten
@@ -451,6 +451,39 @@ def handleGun (kv : List (String × String)) (impl : String) : String × String 
           -- round robin: run the open-system view to attribute every observed row to its counter
           let fed := (List.range nInst).map fun i => runI i true
           if fed.any (·.isNone) then "skip:model-panic" else
+          -- variable flow: every request the target received is the rendering of its templates in the variable tree
+          -- its shot had built so far (the model run on the same responses and the same observed [next] rows)
+          let rlines (evs : List String) : List String := evs.filter (·.startsWith "R~")
+          let vflow : Option String := (List.range nInst).findSome? fun i =>
+            let mshots : List (List String) := (((fed.getD i none).map (·.1)).getD [])
+            ((mshots.zip (splitShots (implInst i))).findSome? fun (m, im) =>
+              let mr := rlines m
+              let ir := rlines im
+              if mr == ir then none else
+              let shot := im.head?.getD ""
+              match (mr.zip ir).find? (fun (a, b) => a != b) with
+              | some (a, b) => some s!"i{i} {shot}: target received {b} but the variables in scope render {a}"
+              | none => some s!"i{i} {shot}: target received {ir.length} requests, the variables in scope allow {mr.length}")
+          -- stop on failure: a step fails exactly when its preprocessor, template, transport, extractor or assertion
+          -- fails on the response the scripted target gave (the model run on the same responses)
+          let plines (evs : List String) : List (String × String) := evs.filterMap fun e =>
+            match e.splitOn "~" with
+            | ["P", tag, _, f] => some (tag, f)
+            | _ => none
+          let stopv : Option String := (List.range nInst).findSome? fun i =>
+            let mshots : List (List String) := (((fed.getD i none).map (·.1)).getD [])
+            ((mshots.zip (splitShots (implInst i))).findSome? fun (m, im) =>
+              let shot := im.head?.getD ""
+              ((plines m).zip (plines im)).findSome? fun ((mt, mf), (it, f)) =>
+                if mf == f then none
+                else if mf == "1" then some s!"i{i} {shot}: step {unesc it} was reported successful but it failed (see the target script and its extractors/assertions)"
+                else some s!"i{i} {shot}: step {unesc mt} was reported failed but nothing in it failed")
+          match stopv with
+          | some d => "fail:stop:" ++ (d.take 300).toString
+          | none =>
+          match vflow with
+          | some d => "fail:var-flow:" ++ (d.take 300).toString
+          | none =>
           let traces : List (List ((Nat × String) × Nat)) := (fed.filterMap id).map fun (_, _, vis) => vis
           let full : List ((Nat × String) × Nat) := (fed.filterMap id).flatMap fun (_, it, _) => it.trace
           let key (k : Nat × String) : String := s!"{k.1}{k.2}"
